@@ -148,8 +148,10 @@ impl SyncReadBuf {
                     let _ = inner.reserve_exact(new_capacity - capacity);
                 }
 
+                // Never let one read take the buffer past its size limit.
                 let len = inner.buf_len();
-                let read_slice = inner.slice(len..);
+                let end = inner.buf_capacity().min(self.max_buffer_size);
+                let read_slice = inner.slice(len..end);
                 stream.read(read_slice).await.into_inner()
             })
             .await?;
